@@ -23,7 +23,7 @@ def gen_cases(rng, n, max_depth):
     out = []
     while len(out) < n:
         r = H.gen_hierarchy(rng, max_depth=rng.randint(1, max_depth), max_children=4, p_rep=0.0, p_shuffle=0.0,
-                            p_through=0.25, qubits=True)
+                            p_through=0.25, qubits=True, p_constrain=0)   # (a rejected size constraint is C06 business: every case here compiles)
         if H.count_nodes(r) > 12:
             continue
         out.append({"routine": r, "n_eval": 2, "eval_seed": rng.randint(0, 10**9)})
